@@ -29,6 +29,22 @@ def run(tier):
                     "resphdr": c[6], "respbody": c[7], "base": c[8], "ids": c[10], "plugin": c[11], "features": c[12],
                     "via_err": o["via"].get("err"), "direct_err": o["direct"].get("err")}
         cases.judge(chk, "ObsRelayTrace", "ObsRelayTrace.cfg", tp, sig, "relay%d" % k)
+    # once more through the real cmd/helios binary (its own buildHandler / createHTTPServer), one process per configuration
+    import subprocess
+    hb = os.path.join(sd, "helios")
+    genv = dict(vlib.GOENV, GOCACHE=os.environ.get("GOCACHE", "/var/tmp/helios-verif-gocache"))
+    p = subprocess.run(["go", "build", "-o", hb, "./cmd/helios"], cwd=vlib.REPO, env=genv, stdout=subprocess.PIPE, stderr=subprocess.STDOUT, text=True)
+    if p.returncode != 0:
+        raise vlib.FrameworkError("cannot build cmd/helios: " + p.stdout[-1500:])
+    tp = cases.execute([binp, "relay"], cs, sd, "relayproc", timeout=1800, extra_args=[str(vlib.seed() + 77)], env={"PROXYSIM_BIN": hb})
+    total += len(cs)
+    chk.cov["exchanges_through_real_binary"] = len(cs)
+
+    def sigp(clause, e):
+        s = sig(clause, e)
+        s["via"] = "process"
+        return s
+    cases.judge(chk, "ObsRelayTrace", "ObsRelayTrace.cfg", tp, sigp, "relayproc")
     chk.cov["traces_validated_against_impl"] = total
     for c in cs:
         chk.count_case(c)
